@@ -210,6 +210,18 @@ def run(ctx, rep):
                "self._channel.close() dominates the hook call" if oko else
                "on_disconnect runs while the channel is still open (closed is reported before the transport is down)",
                ctx.loc(hook[0]))
+    # order: the hook is user code and may still lend objects / create proxies; the tables are emptied AFTER it, so that what
+    # the hook registers is released with everything else
+    if hook:
+        early = []
+        for fld in ("_local_objects", "_proxy_cache", "_request_callbacks"):
+            for n_ in tables.get(fld, []):
+                if Q.find_path(n_, [hook[0]], labels=("next", "true", "false"), skip_first=True):
+                    early.append((fld, n_))
+        rep.ob("R11.2", "_cleanup: the tables are emptied after on_disconnect has run", not early,
+               "no clear() of a table can precede the hook call" if not early else
+               "self.%s.clear() runs before the on_disconnect hook: whatever the hook lends to the peer (or registers) after that "
+               "stays in the table of a closed connection" % early[0][0], ctx.loc(early[0][1]) if early else ctx.loc(hook[0]))
     # who-may-call
     callers_hook = []
     for fu, c in ctx.call_sites(".on_disconnect"):
@@ -441,6 +453,7 @@ def run(ctx, rep):
     rep.ob("R11.6", "Stream.poll: polls this stream's own descriptor", okreg, "p.register(self.fileno(), ...)" if okreg else
            "poll registers something else than the stream's descriptor", fp.loc, kind="site")
     _eof_identity(ctx, rep)
+    _package_hooks_total(ctx, rep)
 
 
 def _eof_identity(ctx, rep):
@@ -499,3 +512,71 @@ def _eof_identity(ctx, rep):
                        "this side stays open and on_disconnect never runs although the transport is gone" % what,
                        ctx.loc(n), witness=ctx.path([n] + bad) if bad else None)
     rep.floor("R11.7", "stream calls in Channel.recv/send/poll", n_sites, 3)
+
+
+_PARTIAL_EXAMPLE = """
+class S(object):
+    def on_disconnect(self, conn):
+        delattr(conn, "modules")
+"""
+
+
+def _partial_ops(fn_node):
+    """operations in a hook body that fail when the state they expect is not there, outside any try statement:
+    delattr / `del x.a` / `del x[k]` / two-argument getattr / one-argument pop / remove / index"""
+    out = []
+    for n in ast.walk(fn_node):
+        if any(isinstance(a, ast.Try) for a in A.ancestors(n) if a is not fn_node) and getattr(n, "_parent", None) is not None:
+            continue
+        if isinstance(n, ast.Call):
+            d = A.call_name(n) or ""
+            if d == "delattr" or (d == "getattr" and len(n.args) == 2 and not n.keywords):
+                out.append((n, "%s(...) raises AttributeError when the attribute is not there" % d))
+            elif isinstance(n.func, ast.Attribute) and n.func.attr in ("remove", "index") and len(n.args) == 1:
+                out.append((n, ".%s(x) raises when x is not there" % n.func.attr))
+            elif isinstance(n.func, ast.Attribute) and n.func.attr == "pop" and len(n.args) == 1 and not n.keywords and \
+                    not isinstance(n.args[0], ast.Constant):
+                out.append((n, ".pop(key) raises KeyError when the key is not there"))
+        elif isinstance(n, ast.Delete):
+            for t in n.targets:
+                if isinstance(t, (ast.Attribute, ast.Subscript)):
+                    out.append((n, "`%s` raises when the target is not there" % A.src(n)))
+    return out
+
+
+def _package_hooks_total(ctx, rep):
+    """R11.8: _cleanup calls the service's on_disconnect unprotected, between marking the connection closed and releasing its
+    tables: a hook shipped with the package (MasterService, ClassicService, ...) must not fail for a connection whose set-up
+    never completed (the peer hung up during the handshake), or the teardown is abandoned half-way."""
+    rep.rule("R11.8", "disconnect hooks defined by the package's own services perform no partial operation (delattr, del, "
+                      "2-argument getattr, pop/remove of a maybe-missing element) outside a try")
+    hooks = [f for q, f in ctx.repo.funcs.items() if f.name == "on_disconnect" and f.cls is not None]
+    rep.floor("R11.8", "on_disconnect definitions in the package", len(hooks), 1)
+    # the scanner itself is exercised on a known-bad example on every run
+    ex = ast.parse(_PARTIAL_EXAMPLE)
+    A.set_parents(ex)
+    if not _partial_ops(ex.body[0].body[0]):
+        raise AnalysisError("R11.8 self-check: the partial-operation scanner no longer recognises its positive example")
+    bad = []
+    for f in hooks:
+        rep.analysed(f)
+        # the hook and the methods of its own class it calls (self.m / cls.m / Class.m), transitively
+        todo, seen = [f], set()
+        while todo:
+            g_ = todo.pop()
+            if g_.qual in seen:
+                continue
+            seen.add(g_.qual)
+            for n, why in _partial_ops(g_.node):
+                bad.append((g_, n, why))
+            for c in A.calls(g_.node):
+                if isinstance(c.func, ast.Attribute) and isinstance(c.func.value, ast.Name) and \
+                        c.func.value.id in ("self", "cls", f.cls.name):
+                    for k in ctx.repo.mro(f.cls):
+                        if c.func.attr in k.methods and c.func.attr != "on_disconnect":
+                            todo.append(k.methods[c.func.attr])
+                            break
+    rep.ob("R11.8", "package services: on_disconnect cannot fail on a half-set-up connection", not bad,
+           "%d hook definition(s), no partial operation" % len(hooks) if not bad else
+           "%s: %s - Connection._cleanup is aborted before the tables are released and the peer's objects stay referenced"
+           % (bad[0][0].qual, bad[0][2]), ctx.loc(bad[0][1]) if bad else None, kind="model")   # (helpers are followed above)
